@@ -52,58 +52,85 @@ theorem viewDocL_append (a b : List View) : viewDocL (a ++ b) = viewDocL a ++ vi
   | nil => simp [viewDocL]
   | cons o os ih => simp [viewDocL, ih]
 
+/-! `noLate c v`: no server resource is read *synchronously for the first time while the boundary resolves its children*
+    (a `resRead` inside the output of a `Suspend` or of another read, under a `Suspense`): such a read registers its
+    task after the boundary stopped collecting them, so nobody waits for it and what is rendered depends on whether
+    the resource had loaded by then (F-C07-6, class `sync-read-late`; `C07_late_read_witness`) -/
+mutual
+def noLate : Ctx → View → Bool
+  | _, .raw _ => true
+  | c, .seq vs => noLateL c vs
+  | .top, .suspend _ v => noLate .top v
+  | .direct, .suspend _ v => noLate .nested v
+  | .nested, .suspend _ v => noLate .nested v
+  | _, .suspense _ _ vs => noLateL .direct vs
+  | c, .eb vs => noLateL c vs
+  | .top, .resSuspend _ v => noLate .top v
+  | .direct, .resSuspend _ v => noLate .nested v
+  | .nested, .resSuspend _ v => noLate .nested v
+  | .top, .resRead _ v => noLate .top v
+  | .direct, .resRead _ v => noLate .nested v
+  | .nested, .resRead _ _ => false
+  | _, .localRead => true
+  | _, .localAwait _ => true
+def noLateL : Ctx → List View → Bool
+  | _, [] => true
+  | c, v :: vs => noLate c v && noLateL c vs
+end
+
 theorem compile_inOrd : ∀ (n : Nat),
-    (∀ (c : Ctx) (v : View), viewSize v ≤ n →
+    (∀ (c : Ctx) (v : View), viewSize v ≤ n → noLate c v = true →
       inOrdOps (compile false c v) = true ∧ docOps (compile false c v) = viewDoc v) ∧
-    (∀ (c : Ctx) (vs : List View), viewSizeL vs ≤ n →
+    (∀ (c : Ctx) (vs : List View), viewSizeL vs ≤ n → noLateL c vs = true →
       inOrdOps (compileL false c vs) = true ∧ docOps (compileL false c vs) = viewDocL vs) := by
   intro n
   induction n with
   | zero =>
     refine ⟨?_, ?_⟩
     · intro c v h; cases v <;> simp [viewSize] at h
-    · intro c vs h
+    · intro c vs h _
       cases vs with
       | nil => simp [compileL, inOrdOps, docOps, viewDocL]
       | cons v vs => cases v <;> simp [viewSizeL, viewSize] at h
   | succ n ih =>
-    have hL : ∀ (c : Ctx) (vs : List View), viewSizeL vs ≤ n + 1 →
-        (∀ (c : Ctx) (v : View), viewSize v ≤ n + 1 →
+    have hL : ∀ (c : Ctx) (vs : List View), viewSizeL vs ≤ n + 1 → noLateL c vs = true →
+        (∀ (c : Ctx) (v : View), viewSize v ≤ n + 1 → noLate c v = true →
           inOrdOps (compile false c v) = true ∧ docOps (compile false c v) = viewDoc v) →
         inOrdOps (compileL false c vs) = true ∧ docOps (compileL false c vs) = viewDocL vs := by
       intro c vs
       induction vs with
-      | nil => intro _ _; simp [compileL, inOrdOps, docOps, viewDocL]
+      | nil => intro _ _ _; simp [compileL, inOrdOps, docOps, viewDocL]
       | cons v vs ihv =>
-        intro h hv
+        intro h hn hv
         simp only [viewSizeL] at h
-        have h1 := hv c v (by omega)
-        have h2 := ihv (by omega) hv
+        simp only [noLateL, Bool.and_eq_true] at hn
+        have h1 := hv c v (by omega) hn.1
+        have h2 := ihv (by omega) hn.2 hv
         simp [compileL, inOrdOps_append, docOps_append, viewDocL, h1, h2]
-    have hV : ∀ (c : Ctx) (v : View), viewSize v ≤ n + 1 →
+    have hV : ∀ (c : Ctx) (v : View), viewSize v ≤ n + 1 → noLate c v = true →
         inOrdOps (compile false c v) = true ∧ docOps (compile false c v) = viewDoc v := by
-      intro c v h
+      intro c v h hn
       cases v with
       | raw s => cases c <;> simp [compile, inOrdOps, inOrdOp, docOps, docOp, viewDoc]
       | seq vs =>
         simp only [viewSize] at h
-        have := ih.2 c vs (by omega)
+        have := ih.2 c vs (by omega) (by cases c <;> simpa [noLate] using hn)
         cases c <;> simpa [compile, viewDoc] using this
       | suspend f v =>
         simp only [viewSize] at h
         cases c with
         | top =>
-          have := ih.1 .top v (by omega)
+          have := ih.1 .top v (by omega) (by simpa [noLate] using hn)
           simp [compile, inOrdOps, inOrdOp, docOps, docOp, viewDoc, this]
         | direct =>
-          have := ih.1 .direct v (by omega)
+          have := ih.1 .nested v (by omega) (by simpa [noLate] using hn)
           simpa [compile, viewDoc] using this
         | nested =>
-          have := ih.1 .direct v (by omega)
+          have := ih.1 .nested v (by omega) (by simpa [noLate] using hn)
           simpa [compile, viewDoc] using this
       | suspense fb nonce vs =>
         simp only [viewSize] at h
-        have := ih.2 .direct vs (by omega)
+        have := ih.2 .direct vs (by omega) (by cases c <;> simpa [noLate] using hn)
         by_cases hl : localNowL vs = true
         · cases c <;> simp [compile, inOrdOps, inOrdOp, docOps, docOp, viewDoc, hl]
         · have hl' : localNowL vs = false := by simpa using hl
@@ -112,27 +139,33 @@ theorem compile_inOrd : ∀ (n : Nat),
           | none => cases c <;> simp [compile, inOrdOps, inOrdOp, docOps, docOp, viewDoc, hl', hw, this]
       | eb vs =>
         simp only [viewSize] at h
-        have := ih.2 c vs (by omega)
+        have := ih.2 c vs (by omega) (by cases c <;> simpa [noLate] using hn)
         cases c <;> simp [compile, inOrdOps, inOrdOp, docOps, docOp, viewDoc, this]
       | resSuspend f v =>
         simp only [viewSize] at h
         cases c with
         | top =>
-          have := ih.1 .top v (by omega)
+          have := ih.1 .top v (by omega) (by simpa [noLate] using hn)
           simp [compile, inOrdOps, inOrdOp, docOps, docOp, viewDoc, this]
         | direct =>
-          have := ih.1 .direct v (by omega)
+          have := ih.1 .nested v (by omega) (by simpa [noLate] using hn)
           simpa [compile, viewDoc] using this
         | nested =>
-          have := ih.1 .direct v (by omega)
+          have := ih.1 .nested v (by omega) (by simpa [noLate] using hn)
           simpa [compile, viewDoc] using this
       | resRead f v =>
         simp only [viewSize] at h
-        have := ih.1 c v (by omega)
-        cases c <;> simpa [compile, viewDoc] using this
+        cases c with
+        | top =>
+          have := ih.1 .top v (by omega) (by simpa [noLate] using hn)
+          simpa [compile, viewDoc] using this
+        | direct =>
+          have := ih.1 .nested v (by omega) (by simpa [noLate] using hn)
+          simpa [compile, viewDoc] using this
+        | nested => simp [noLate] at hn
       | localRead => cases c <;> simp [compile, inOrdOps, docOps, viewDoc]
       | localAwait f => cases c <;> simp [compile, inOrdOps, docOps, viewDoc]
-    exact ⟨hV, fun c vs h => hL c vs h hV⟩
+    exact ⟨hV, fun c vs h hn => hL c vs h hn hV⟩
 
 /-! `oooViewOk`: no boundary whose future resolves to `None` *later* (`localWait`: a `LocalResource` awaited after another
     future; the out-of-order chunk then has `replace = false`, which `OooWf` does not cover) -/
@@ -253,64 +286,65 @@ theorem oooDocOps_append {a : List Op} (ha : OooWf a) (b : List Op) : oooDocOps 
   | sub _ _ _ ih => simp [oooDocOps, oooDocOp, ih]
 
 theorem compile_oooWf : ∀ (n : Nat),
-    (∀ (c : Ctx) (v : View), viewSize v ≤ n → oooViewOk v = true →
+    (∀ (c : Ctx) (v : View), viewSize v ≤ n → oooViewOk v = true → noLate c v = true →
       OooWf (compile true c v) ∧ oooDocOps (compile true c v) = viewDoc v) ∧
-    (∀ (c : Ctx) (vs : List View), viewSizeL vs ≤ n → oooViewOkL vs = true →
+    (∀ (c : Ctx) (vs : List View), viewSizeL vs ≤ n → oooViewOkL vs = true → noLateL c vs = true →
       OooWf (compileL true c vs) ∧ oooDocOps (compileL true c vs) = viewDocL vs) := by
   intro n
   induction n with
   | zero =>
     refine ⟨?_, ?_⟩
     · intro c v h; cases v <;> simp [viewSize] at h
-    · intro c vs h _
+    · intro c vs h _ _
       cases vs with
       | nil => exact ⟨by simp [compileL]; exact .nil, by simp [compileL, oooDocOps, viewDocL]⟩
       | cons v vs => cases v <;> simp [viewSizeL, viewSize] at h
   | succ n ih =>
-    have hL : ∀ (c : Ctx) (vs : List View), viewSizeL vs ≤ n + 1 → oooViewOkL vs = true →
-        (∀ (c : Ctx) (v : View), viewSize v ≤ n + 1 → oooViewOk v = true →
+    have hL : ∀ (c : Ctx) (vs : List View), viewSizeL vs ≤ n + 1 → oooViewOkL vs = true → noLateL c vs = true →
+        (∀ (c : Ctx) (v : View), viewSize v ≤ n + 1 → oooViewOk v = true → noLate c v = true →
           OooWf (compile true c v) ∧ oooDocOps (compile true c v) = viewDoc v) →
         OooWf (compileL true c vs) ∧ oooDocOps (compileL true c vs) = viewDocL vs := by
       intro c vs
       induction vs with
-      | nil => intro _ _ _; exact ⟨by simp [compileL]; exact .nil, by simp [compileL, oooDocOps, viewDocL]⟩
+      | nil => intro _ _ _ _; exact ⟨by simp [compileL]; exact .nil, by simp [compileL, oooDocOps, viewDocL]⟩
       | cons v vs ihv =>
-        intro h hok hv
+        intro h hok hn hv
         simp only [viewSizeL] at h
         simp only [oooViewOkL, Bool.and_eq_true] at hok
-        have h1 := hv c v (by omega) hok.1
-        have h2 := ihv (by omega) hok.2 hv
+        simp only [noLateL, Bool.and_eq_true] at hn
+        have h1 := hv c v (by omega) hok.1 hn.1
+        have h2 := ihv (by omega) hok.2 hn.2 hv
         refine ⟨by simp only [compileL]; exact h1.1.append h2.1, ?_⟩
         simp [compileL, oooDocOps_append h1.1, viewDocL, h1.2, h2.2]
-    have hV : ∀ (c : Ctx) (v : View), viewSize v ≤ n + 1 → oooViewOk v = true →
+    have hV : ∀ (c : Ctx) (v : View), viewSize v ≤ n + 1 → oooViewOk v = true → noLate c v = true →
         OooWf (compile true c v) ∧ oooDocOps (compile true c v) = viewDoc v := by
-      intro c v h hok
+      intro c v h hok hn
       cases v with
       | raw s => cases c <;> exact ⟨by simp only [compile]; exact .sync s .nil, by simp [compile, oooDocOps, oooDocOp, viewDoc]⟩
       | seq vs =>
         simp only [viewSize] at h
-        have := ih.2 c vs (by omega) (by simpa [oooViewOk] using hok)
+        have := ih.2 c vs (by omega) (by simpa [oooViewOk] using hok) (by cases c <;> simpa [noLate] using hn)
         cases c <;> simpa [compile, viewDoc] using this
       | suspend f v =>
         simp only [viewSize] at h
         have hv : oooViewOk v = true := by simpa [oooViewOk] using hok
         cases c with
         | top =>
-          have := ih.1 .top v (by omega) hv
+          have := ih.1 .top v (by omega) hv (by simpa [noLate] using hn)
           refine ⟨?_, ?_⟩
           · simp only [compile, if_true]
             exact .ite _ this.1 (.triple _ _ _ this.1 .nil) (by simp [oooDocOps, oooDocOp]) .nil
           · simp [compile, oooDocOps, oooDocOp, viewDoc, this.2]
         | direct =>
-          have := ih.1 .direct v (by omega) hv
+          have := ih.1 .nested v (by omega) hv (by simpa [noLate] using hn)
           simpa [compile, viewDoc] using this
         | nested =>
-          have := ih.1 .direct v (by omega) hv
+          have := ih.1 .nested v (by omega) hv (by simpa [noLate] using hn)
           simpa [compile, viewDoc] using this
       | suspense fb nonce vs =>
         simp only [viewSize] at h
         simp only [oooViewOk, Bool.and_eq_true, Bool.or_eq_true] at hok
-        have := ih.2 .direct vs (by omega) hok.2
+        have := ih.2 .direct vs (by omega) hok.2 (by cases c <;> simpa [noLate] using hn)
         by_cases hl : localNowL vs = true
         · cases c <;> exact ⟨by simp only [compile, hl, if_true]; exact .nextId (.sync fb .nil),
             by simp [compile, hl, oooDocOps, oooDocOp, viewDoc]⟩
@@ -323,7 +357,7 @@ theorem compile_oooWf : ∀ (n : Nat),
             by simp [compile, hl', hw, oooDocOps, oooDocOp, viewDoc, this.2]⟩
       | eb vs =>
         simp only [viewSize] at h
-        have := ih.2 c vs (by omega) (by simpa [oooViewOk] using hok)
+        have := ih.2 c vs (by omega) (by simpa [oooViewOk] using hok) (by cases c <;> simpa [noLate] using hn)
         cases c <;> exact ⟨by simp only [compile]; exact .sub this.1 .nil,
           by simp [compile, oooDocOps, oooDocOp, viewDoc, this.2]⟩
       | resSuspend f v =>
@@ -331,24 +365,31 @@ theorem compile_oooWf : ∀ (n : Nat),
         have hv : oooViewOk v = true := by simpa [oooViewOk] using hok
         cases c with
         | top =>
-          have := ih.1 .top v (by omega) hv
+          have := ih.1 .top v (by omega) hv (by simpa [noLate] using hn)
           refine ⟨?_, ?_⟩
           · simp only [compile, if_true]
             exact .ite _ this.1 (.triple _ _ _ this.1 .nil) (by simp [oooDocOps, oooDocOp]) .nil
           · simp [compile, oooDocOps, oooDocOp, viewDoc, this.2]
         | direct =>
-          have := ih.1 .direct v (by omega) hv
+          have := ih.1 .nested v (by omega) hv (by simpa [noLate] using hn)
           simpa [compile, viewDoc] using this
         | nested =>
-          have := ih.1 .direct v (by omega) hv
+          have := ih.1 .nested v (by omega) hv (by simpa [noLate] using hn)
           simpa [compile, viewDoc] using this
       | resRead f v =>
         simp only [viewSize] at h
-        have := ih.1 c v (by omega) (by simpa [oooViewOk] using hok)
-        cases c <;> simpa [compile, viewDoc] using this
+        have hv : oooViewOk v = true := by simpa [oooViewOk] using hok
+        cases c with
+        | top =>
+          have := ih.1 .top v (by omega) hv (by simpa [noLate] using hn)
+          simpa [compile, viewDoc] using this
+        | direct =>
+          have := ih.1 .nested v (by omega) hv (by simpa [noLate] using hn)
+          simpa [compile, viewDoc] using this
+        | nested => simp [noLate] at hn
       | localRead => cases c <;> exact ⟨by simp only [compile]; exact .nil, by simp [compile, oooDocOps, viewDoc]⟩
       | localAwait f => cases c <;> exact ⟨by simp only [compile]; exact .nil, by simp [compile, oooDocOps, viewDoc]⟩
-    exact ⟨hV, fun c vs h hok => hL c vs h hok hV⟩
+    exact ⟨hV, fun c vs h hok hn => hL c vs h hok hn hV⟩
 
 /-! ### marker ids (`next_id`, the `push(0)` of a sub-builder) -/
 
